@@ -132,10 +132,9 @@ def check_calls_on_grid(ctx, c02, g, tag):
             try:
                 out = [int(v) for v in numpy.asarray(fore.get_magnitude_index(arr, tol=tol))]
                 res = "ok"
-            except ValueError:
+            except Exception:
+                # HOW a magnitude below the first edge is reported (ValueError today) is not the property's business: any rejection counts
                 out, res = None, "ValueError"
-            except Exception as e:
-                out, res = None, "EXC:" + type(e).__name__
             run.count("get_magnitude_index_" + fname)
             if res == "ok":
                 for x, i, a in zip(vals, out, als):
@@ -156,10 +155,8 @@ def check_calls_on_grid(ctx, c02, g, tag):
                 fore.get_magnitude_index(numpy.array(list(can[:3]) + [x]), tol=tol)
                 run.oracle_failure(dict(case0, what="get_magnitude_index", p=[repr(float(x))]),
                                    f"get_magnitude_index(tol={tol!r}) accepted the magnitude {float(x)!r} below the first edge {float(g.e64[0])!r}")
-            except ValueError:
-                pass
-            except Exception as e:
-                run.oracle_failure(dict(case0, what="get_magnitude_index", p=[repr(float(x))]), f"raised {type(e).__name__} instead of ValueError")
+            except Exception:
+                pass          # rejected (ValueError today; the exception class is not part of the property)
         # ---- the Lean model of the call sites (values inside the Soft64 domain only)
         ok_dom = [bool(c02.in_model_domain(g, "f64", x)) for x in mags]
         mm = [x for x, o in zip(mags, ok_dom) if o]
@@ -171,10 +168,8 @@ def check_calls_on_grid(ctx, c02, g, tag):
         # get_magnitude_index of ALL magnitudes (raises when one is below the first edge)
         try:
             gall = [int(v) for v in numpy.asarray(fore.get_magnitude_index(numpy.array(mm), tol=tol))]
-        except ValueError:
+        except Exception:
             gall = "E"
-        except Exception as e:
-            gall = "EXC:" + type(e).__name__
         ctx.pending.append(("calls", q, case0, dict(gmi=gall, mc=[int(v) for v in cnt], gi=gi if tol is None else None,
                                                      band=any(len(a) > 1 for a in al))))
         if len(ctx.pending) >= 40:
@@ -234,12 +229,11 @@ def run_calls(ctx, c02, tier):
     from csep.core import regions
     reg = regions.CartesianGrid2D.from_origins(numpy.array([[0., 0.], [0.1, 0.]]), dh=0.1)
     for arg, mags, exc in ((object(), [1.0, 2.0], TypeError), (reg, None, ValueError)):
-        try:
+        try:       # misconfiguration (no region / no magnitudes) is outside the property: observed, not judged
             regions.create_space_magnitude_region(arg, mags)
-            ctx.run.oracle_failure(dict(kind="calls", what="create_space_magnitude_region"),
-                                   f"create_space_magnitude_region accepted region={type(arg).__name__}, magnitudes={mags!r}")
+            ctx.run.count("create_space_magnitude_region: misconfiguration accepted (not judged)")
         except exc:
-            pass
+            ctx.run.count("create_space_magnitude_region: misconfiguration rejected as documented")
         except Exception as e:
             ctx.run.count("create_space_magnitude_region_other_exception:" + type(e).__name__)
 
@@ -296,6 +290,15 @@ def session(ctx, c02, spec0, tier):
         run.oracle_failure(case0, f"building the session objects raised {type(e).__name__}: {e}")
         return
     cur = B               # the array object the shared region's magnitudes are expected to BE
+    # the current code binds the caller's array ITSELF (no copy): the session then also lets the caller edit it in place. A tree that
+    # takes a defensive copy is accepted: identity is not demanded and the in-place edits of the caller are left out (the property is
+    # about the edges in force, not about aliasing)
+    alias = R.magnitudes is B
+    if not alias:
+        run.count("session: the region keeps a COPY of the edge array (aliasing steps skipped)")
+
+    def same_edges(a, b):
+        return (a is b) if alias else (a is not None and numpy.array_equal(numpy.asarray(a, dtype=float), numpy.asarray(b, dtype=float)))
     for stepno in range(rng.randint(5, 10)):
         kind = rng.choice(["bin1d", "bin1d", "disc", "magidx", "counts", "counts_explicit", "gmi", "edit", "rebind", "forecast2",
                            "generator", "default_bins"])
@@ -354,11 +357,13 @@ def session(ctx, c02, spec0, tier):
                     return
             elif kind == "gmi":
                 ok = [x for x in P if -1 not in c02.allowed_val(gcur, "f64", tol, True, x)]
-                if ok and fore.region.magnitudes is cur:
+                if ok and same_edges(fore.region.magnitudes, cur):
                     if not _judge(c02, run, case, "get_magnitude_index", gcur, "f64", tol, ok, numpy.asarray(fore.get_magnitude_index(numpy.array(ok), tol=tol))):
                         return
             elif kind == "edit":
                 # the CALLER moves the shared edges in place: every consumer must follow (no result may be cached per array object)
+                if not alias:
+                    continue
                 cur += rng.choice([0.5 * h, h, -2 * h, 3 * h])
                 steps.append(kind)
                 continue
@@ -369,7 +374,13 @@ def session(ctx, c02, spec0, tier):
             elif kind == "forecast2":
                 new = numpy.array(cur, dtype=float)[: max(3, gcur.n - 1)].copy()
                 f2 = GriddedForecast(data=numpy.ones((2, len(new))), region=R, magnitudes=new)     # binds ITS edges to the shared region
-                cur = new
+                # (the current constructor re-binds the SHARED region's magnitudes; a tree that leaves the region it is handed
+                # alone is accepted: the session goes on with whatever edges the region really carries)
+                rm = R.magnitudes
+                if rm is not None and len(rm) == len(new) and numpy.array_equal(numpy.asarray(rm, dtype=float), new):
+                    cur = rm if isinstance(rm, numpy.ndarray) else new
+                else:
+                    run.count("session: a second forecast left the shared region's magnitudes alone (accepted)")
                 g2 = grid_now(new)
                 ok = [x for x in P if -1 not in c02.allowed_val(g2, "f64", None, True, x)]
                 if ok and g2.premise("f64", None):
@@ -421,7 +432,7 @@ def session(ctx, c02, spec0, tier):
         if kind not in ("rebind", "forecast2") and not numpy.array_equal(numpy.asarray(cur, dtype=float), Bsnap):
             run.oracle_failure(case, f"the edge array handed to the library was modified by step {kind}")
             return
-        if R.magnitudes is not cur or getattr(R, "num_mag_bins", None) != len(cur):
+        if not same_edges(R.magnitudes, cur) or getattr(R, "num_mag_bins", None) != len(cur):
             run.oracle_failure(case, f"after step {kind} the shared region's magnitudes are not the edges last bound to it (num_mag_bins={getattr(R, 'num_mag_bins', None)}, expected {len(cur)})")
             return
     run.evaluations += len(steps) * len(P)
@@ -442,7 +453,11 @@ def nonfinite_and_sizes(ctx, c02, tier):
                 out = [int(i) for i in numpy.asarray(bin1d_vec(numpy.array([5.0, v, 6.0]), g.bins, right_continuous=rc))]
             except Exception as e:
                 out = "EXC:" + type(e).__name__
-            if out == "EXC" or not isinstance(out, list) or out[0] != 25 or out[2] != 35:
+            if isinstance(out, str):
+                # NaN / -inf are awaiting a decision (see AWAITING_DECISION): a tree that REJECTS such an array is not judged
+                run.count("awaiting-decision: NaN / -inf value rejected with an exception")
+                continue
+            if not isinstance(out, list) or len(out) != 3 or out[0] != 25 or out[2] != 35:
                 run.oracle_failure(dict(kind="calls", what="nonfinite", p=[repr(v)], rc=rc), f"bin1d_vec([5.0, {v!r}, 6.0]) = {out!r}: the finite neighbours must get bins 25 and 35")
             elif out[1] >= 0:
                 run.oracle_failure(dict(kind="calls", what="nonfinite", p=[repr(v)], rc=rc), f"bin1d_vec placed {v!r} in bin {out[1]}")
